@@ -80,6 +80,7 @@ UNTERMINATED = [
     "f!(", "f!(a", "f!(a,", "f!(a, (b", "f!(]", "f!(a,, b)", "with! x:", "with! x:\n", "with! x:\n ", "with! x:\n  a\n b\n", "$(echo! ", "x = `abc", "x = p'abc", "x = rb'", "if x:", "if x:\n",
     "if x:\n  a\n b\n", "def f(", "class A(", "x = a ?", "a??", "? a", "$", "$ x", "${}", "$()", "![]", "x = 1\n  y = 2\n", "\tx\n        y\n", "x = )", "x = ]", "x = }", "x = (]", "f'{a}}'", "f'}'", "f'{'",
     "f'{a!}'", "f'{a!x}'", "f'{!r}'", "f'{}'", "f'{a:{}}'", "f'{a:{b:{c}}}'", "'a' b'b'", "$(echo r'x'b'y')", "$(echo a.b?)", "x = 1e", "x = 0x", "x = 1_", "x = 0b2", "x = 09", "x = 1__0", "x = 1.e", "x = 1jj",
+    "a?.[1]?", "a?.'x'?", "a?.(b)?", "a?.1?", "[1]?.b?", "a??.b?", "a?.b?.{c}?", "f(a?.[b]?)", "x = a?.$B?", "a?.$(ls)?", "a?.`g`?", "a?.b!(c)?", "a?.p'/x'?",
     "\r", "a\rb", "a\r\nb\r", "\0", "a\0b", "\ufeffx = 1\n", "\f", "\x0c\x0c x", "x\n\x0c", "é", "x = é€", "x = '€' €", "def é(): pass", "x\u00a0=\u00a01", "x = 1\u2028y = 2",
 ]
 
